@@ -14,17 +14,40 @@ Proof. intros H. cbn [adv]. assert ((x + 1 =? w) = false) as -> by lia. reflexiv
 Lemma placed_none_nil w c tr : placed w c [] tr -> tr = [].
 Proof. inversion 1. reflexivity. Qed.
 
+Definition no_ctl (es : list element) : Prop :=
+  forallb (fun e => negb (is_control_glyph (eg e))) es = true.
+
 Lemma placed_positions w : forall es x y tr,
-  placed w (Some (x, y)) es tr -> x + N.of_nat (length es) <= w ->
+  placed w (Some (x, y)) es tr -> no_ctl es -> x + N.of_nat (length es) <= w ->
   map fst tr = row_positions x y (length es).
 Proof.
-  induction es as [|e es IH]; intros x y tr Hp Hlen.
+  unfold no_ctl. induction es as [|e es IH]; intros x y tr Hp Hnc Hlen.
   - apply placed_none_nil in Hp. subst. reflexivity.
-  - inversion Hp as [|c e' es' q tr' Hq Hrest]; subst. cbn [map fst length row_positions].
+  - cbn [forallb] in Hnc. apply andb_prop in Hnc as [Hne Hnc]. apply negb_true_iff in Hne.
+    inversion Hp as [|c e' es' q tr' Hc Hq Hrest|c e' es' tr' Hc Hrest]; subst; [|congruence].
+    cbn [map fst length row_positions].
     rewrite (Hq (x, y) eq_refl). f_equal.
     destruct es as [|e2 es2].
     + apply placed_none_nil in Hrest. subst. reflexivity.
-    + cbn [length] in Hlen. rewrite adv_some in Hrest by lia. apply IH; [exact Hrest|cbn [length]; lia].
+    + cbn [length] in Hlen. rewrite adv_some in Hrest by lia. apply IH; [exact Hrest|exact Hnc|cbn [length]; lia].
+Qed.
+
+Lemma no_ctl_visible es : no_ctl es -> visible es = es.
+Proof.
+  unfold no_ctl, visible. induction es as [|e r IH]; [reflexivity|].
+  cbn [forallb filter]. intros H. apply andb_prop in H as [He Hr]. rewrite He, (IH Hr). reflexivity.
+Qed.
+
+Lemma wf_elems_no_ctl es : forallb wf_elem es = true -> no_ctl es.
+Proof.
+  unfold no_ctl. induction es as [|e r IH]; [reflexivity|]. cbn [forallb]. intros H.
+  apply andb_prop in H as [He Hr]. rewrite (wf_elem_not_control _ He), (IH Hr). reflexivity.
+Qed.
+
+Lemma wf_elems_c es : forallb wf_elem es = true -> forallb wf_elem_c es = true.
+Proof.
+  induction es as [|e r IH]; [reflexivity|]. cbn [forallb]. intros H.
+  apply andb_prop in H as [He Hr]. rewrite (wf_elem_wf_elem_c _ He), (IH Hr). reflexivity.
 Qed.
 
 (* ---- C11: modes as a function of the requests ---------------------------------------- *)
@@ -122,10 +145,51 @@ Proof.
   rewrite IH. reflexivity.
 Qed.
 
-Lemma placed_text w c es tr : placed w c es tr -> forallb wf_elem es = true ->
-  flat_map (fun pc => c_bytes (snd pc)) tr = to_string es.
+Lemma wf_elem_c_visible e : wf_elem_c e = true -> is_control_glyph (eg e) = false -> wf_elem e = true.
 Proof.
-  induction 1 as [|c e es q tr Hq Hrest IH]; intros Hwf; [reflexivity|].
-  cbn [forallb] in Hwf. apply andb_prop in Hwf as [He Hes].
-  cbn [flat_map snd]. rewrite (display_bytes e He), (IH Hes). reflexivity.
+  intros H Hc. apply wf_elem_c_cases in H. destruct H as [H|(Hfe & _)]; [exact H|].
+  unfold format_effector in Hfe. apply andb_prop in Hfe as [Hfe _].
+  unfold is_control_glyph in Hc. lia.
+Qed.
+
+(* the text a terminal receives for a string: control characters are not glyphs *)
+Lemma placed_text w c es tr : placed w c es tr -> forallb wf_elem_c es = true ->
+  flat_map (fun pc => c_bytes (snd pc)) tr = to_string (visible es).
+Proof.
+  induction 1 as [|c e es q tr Hc Hq Hrest IH|c e es tr Hc Hrest IH]; intros Hwf; [reflexivity| |];
+    cbn [forallb] in Hwf; apply andb_prop in Hwf as [He Hes]; unfold visible; cbn [filter]; rewrite Hc; cbn [negb].
+  - cbn [flat_map snd]. rewrite (display_bytes e (wf_elem_c_visible e He Hc)).
+    fold (visible es). rewrite (IH Hes). reflexivity.
+  - fold (visible es). exact (IH Hes).
+Qed.
+
+(* ---- C17: the payload of a write is the text, whatever the glyphs are ------------------ *)
+Definition payload_of (cs : list cmd) : list byte :=
+  flat_map (fun c => match c with Payload bs => bs | _ => [] end) cs.
+
+Lemma payload_of_app a b : payload_of (a ++ b) = payload_of a ++ payload_of b.
+Proof. unfold payload_of. apply flat_map_app. Qed.
+
+Lemma payload_of_ctl cs : forallb ctl_ok cs = true -> payload_of cs = [].
+Proof.
+  induction cs as [|c r IH]; [reflexivity|]. cbn [forallb]. intros H. apply andb_prop in H as [Hc Hr].
+  unfold payload_of in *. cbn [flat_map]. rewrite (IH Hr). destruct c; try reflexivity. discriminate.
+Qed.
+
+Lemma payload_write_element beh st e : payload_of (snd (write_element beh st e)) = wire (eg e).
+Proof.
+  unfold write_element. cbn [snd]. rewrite app_assoc, payload_of_app.
+  rewrite payload_of_ctl by (rewrite forallb_app, ctl_change_charset, ctl_change_attribute; reflexivity).
+  cbn. apply app_nil_r.
+Qed.
+
+Lemma payload_write_elements beh : forall es st,
+  payload_of (snd (write_elements beh st es)) = flat_map (fun e => wire (eg e)) es.
+Proof.
+  induction es as [|e r IH]; intros st; [reflexivity|].
+  cbn [write_elements flat_map].
+  pose proof (payload_write_element beh st e) as H1.
+  destruct (write_element beh st e) as [st1 c1]. cbn [snd] in H1.
+  specialize (IH st1). destruct (write_elements beh st1 r) as [st2 c2]. cbn [snd] in *.
+  rewrite payload_of_app, H1, IH. reflexivity.
 Qed.
